@@ -380,7 +380,8 @@ theorem sub_pr : ∀ s : Schema, wf s = true → dense s = true →
         simp only [Bool.and_eq_true, List.isEmpty_iff] at h
         rw [resolve_joined, resolve_joined, h.2]
         exact sub_nocfl _ _ _ _ _ _ _
-      · exact Sub.refl _
+      · rw [resolve_joined, resolve_joined]
+        exact sub_nocfl _ _ _ _ _ _ _
     | _ => simp [OkP] at hok
   · intro nm o fields hnd hsome ih u e hok
     cases e with
